@@ -29,7 +29,7 @@ DOCUMENTED = ("MemoryLocationNotWriteable", "MemoryWriteFailure", "ResponseError
 
 def plan(tier, seed):
     reps = 1 if tier == "quick" else 8
-    return [{"bank": b, "rep": rep, "datas": 3 if tier == "quick" else 6} for b in BANKS for rep in range(reps)] + \
+    return [{"bank": b, "rep": rep, "datas": 5 if tier == "quick" else 8} for b in BANKS for rep in range(reps)] + \
         [{"bank": "synthetic"}]
 
 
